@@ -4,7 +4,7 @@
 wt=$1; id=$2; name=$3; shift 3
 mkdir -p /verif/seeded/$name
 cp $wt/patch.diff $wt/demo_$id.py /verif/seeded/$name/
-PY=/venv/bin/python; [ "$id" = C11 ] && PY="env PYTHONPATH=/verif/harness/shims:$wt /usr/bin/python3"
-( cd $wt && echo "demo WITH change: $($PY demo_$id.py 2>&1 | tail -1 | cut -c1-90)"; git stash -q -- aiocoap; echo "demo WITHOUT change: $($PY demo_$id.py 2>&1 | tail -1 | cut -c1-90)"; git stash pop -q )
+PY=/venv/bin/python; case "$id" in C11|C12|C13) PY="env PYTHONPATH=/verif/harness/shims:$wt /usr/bin/python3";; esac
+( cd $wt && echo "demo WITH change: $($PY demo_$id.py 2>&1 | tail -1 | cut -c1-90)"; git apply -R patch.diff; echo "demo WITHOUT change: $($PY demo_$id.py 2>&1 | tail -1 | cut -c1-90)"; git apply patch.diff )
 python3 /verif/tools/seedcheck.py $name "$@" | cut -c1-230
 ( /verif/tools/verify_seed.sh $wt > /dev/shm/seedtest_$name.log 2>&1 & )
